@@ -757,6 +757,7 @@ def history_run(run, pid):
     judged = len(events) - facts.get("state:skipped", 0)
     run.cov["evaluations"] += judged
     run.cov["histories"] = len(scen)
+    object_impl_conformance(run, events)
     run.cov["traces_validated_against_impl"] += judged - len(mine)
     run.cov["steps_by_operation"] = {k[3:]: v for k, v in facts.items() if k.startswith("op:")}
     run.cov["steps_by_result"] = {k[4:]: v for k, v in facts.items() if k.startswith("res:")}
@@ -809,6 +810,26 @@ def c10(run):
         raise ToolError("vacuous run: no failing step for one of %s (%s)" % (need, failed))
 
 
+def object_impl_conformance(run, events):
+    """byte-level: every recorded cursor sub-step and insertion against the object-level transcription
+    (spec/ObjectImpl.tla: decompress-first, cursor translation, byte moves, offset shifts).  Notes only."""
+    sel = [l for l in events if '"op":"cursor"' in l[:4000] or '"op":"insert' in l[:4000]]
+    if quick(run):
+        sel = sel[vlib.seed() % 3::3]
+    if not sel:
+        return
+    path = os.path.join(run.wd, "objimpl.ndjson")
+    with open(path, "w") as f:
+        for l in sel:
+            f.write(l + "\n")
+    diff, out = vlib.validate(path, "Trace_ObjectImpl", "Trace_ObjectImpl.cfg", run.wd, len(sel), {"NOTE-IMPL"}, shards=4)
+    compared = sum(int(txt) for _, ln, txt in vlib.event_prints(out, "FACT"))
+    run.cov["object_transcription"] = {"steps_selected": len(sel), "sub_steps_compared_byte_for_byte": compared, "differences": len(diff)}
+    if diff:
+        kinds = collections.Counter(str(w) for (_, w) in diff.values())
+        run.notes.append("note (not a violation): on %d recorded steps the object's bytes / bookkeeping / cursor differ from the TLA+ transcription ObjectImpl: %s" % (len(diff), "; ".join("%s x%d" % kv for kv in kinds.most_common(5))))
+
+
 def book_models(run, negs=("edns", "cache", "recompute", "optttl")):
     """M: the size-level bookkeeping design (spec/Book.tla), repaired design: every initial packet
     with <= 1 (thorough: 2) records per section, two names, per-record compression flag, OPT anywhere,
@@ -824,6 +845,10 @@ def book_models(run, negs=("edns", "cache", "recompute", "optttl")):
     # operation at every record position of the Gen_S1 packets (pointer-free layout)
     run.model("MC_MutateImpl", "MC_MutateImpl.cfg" if quick(run) else "MC_MutateImpl_thorough.cfg", timeout=7200)
     run.negative_control("MC_MutateImpl", "MC_MutateImpl_neg.cfg")
+    # object level: byte-exact decompression, decompress-first with cursor translation, on the compressed layouts
+    run.model("MC_ObjectImpl", "MC_ObjectImpl.cfg" if quick(run) else "MC_ObjectImpl_thorough.cfg", timeout=7200)
+    run.negative_control("MC_ObjectImpl", "MC_ObjectImpl_neg_rdlength.cfg")
+    run.negative_control("MC_ObjectImpl", "MC_ObjectImpl_neg_cursor.cfg")
 
 
 @check("HIST")
@@ -1254,6 +1279,10 @@ def selftest():
     case("C08 stale cache", "Trace_History", "Trace_History.cfg", "VIOLATION-HIST", ev, 2, setf(["view", "cached"], lambda v: [{"raw0": [1, 120, 0], "type": 1, "class": 1}]))
     case("C09 effect", "Trace_History", "Trace_History.cfg", "VIOLATION-HIST", ev, 2, setf(["o", "rec", "r", "ttl"], lambda v: [0, 0, 0, 78]))
     case("C10 failed op changed", "Trace_History", "Trace_History.cfg", "VIOLATION-HIST", ev, 3, setf(["post", 1], lambda v: v ^ 1))
+    case("transcription: bytes", "Trace_ObjectImpl", "Trace_ObjectImpl.cfg", "NOTE-IMPL", ev, 1, setf(["subs", 0, "bytes", 14], lambda v: v ^ 1))
+    case("transcription: offsets", "Trace_ObjectImpl", "Trace_ObjectImpl.cfg", "NOTE-IMPL", ev, 1, setf(["subs", 0, "view", "oar"], lambda v: [v[0] + 1]))
+    case("transcription: cursor", "Trace_ObjectImpl", "Trace_ObjectImpl.cfg", "NOTE-IMPL", ev, 1, setf(["subs", 0, "obs", "next"], lambda v: v + 1))
+    case("transcription: insert", "Trace_ObjectImpl", "Trace_ObjectImpl.cfg", "NOTE-IMPL", ev, 2, setf(["post", 30], lambda v: v ^ 1))
     ws = [w for w in H.walks("quick") if '"sec":"AN"' in w][40:46]
     obs, _ = vlib.drive(ws, wd, "st_walk")
     target = next(i for i, o in enumerate(obs) if len(json.loads(o)["ys"]) >= 2)
